@@ -85,6 +85,23 @@ def gen(rs: int, tier: str, index: int) -> dict:
                 atts[-1]["steps"] = [min(atts[-1]["steps"][0], 20_000)]
         m["attempts"] = atts
         m.pop("save", None)
+    valid = [m for m in s["messages"] if m.get("kind", "valid") == "valid"]
+    if r.random() < 0.15 and valid:
+        # the retry middleware is installed with broker.add_middlewares() on the running workers, after they have already processed
+        # (and failed) messages without it: the warm-up messages are never re-sent, everything sent afterwards is
+        for mw in s["config"]["middlewares"]:
+            if mw.get("retry") is not None:
+                mw["late"] = True
+        warm = valid[: max(1, len(valid) // 3)]
+        warm[0]["attempts"][0] = {"steps": [r.choice([0, 1, 5_000])], "out": ["exc", r.choice(FAILS)]}
+        warm[0].pop("timeout", None)
+        for m in s["messages"]:
+            if any(m is x for x in warm):
+                m["warmup"] = True
+                m["send_at_us"] = min(m.get("send_at_us", 0), 100_000)
+            else:
+                m["send_at_us"] = m.get("send_at_us", 0) + 12_000_000
+        s["ops"].append({"op": "add_late_mw", "at_us": 10_000_000})
     return s
 
 
@@ -107,7 +124,9 @@ def model(script: dict, m: dict) -> List[dict]:
     rc = retry_cfg(script)
     labels = m.get("labels") or {}
     roe = labels.get("retry_on_error")
-    if roe is None:
+    if m.get("warmup"):
+        enabled = False           # processed before the retry middleware was installed
+    elif roe is None:
         enabled = bool(rc.get("label", False))
     elif roe[0] == "bool":
         enabled = bool(roe[1])
@@ -203,7 +222,8 @@ def oracle(script: dict, run: Any) -> List[Violation]:
 
 def probes(script: dict, run: Any) -> Dict[str, int]:
     res = {"resent_at_least_once": 0, "bound_reached": 0, "success_after_retries": 0, "no_result_stops_retry": 0, "disabled_not_resent": 0,
-           "timeout_attempt": 0, "max_retries_str_label": 0, "max_retries_zero_or_one": 0}
+           "timeout_attempt": 0, "max_retries_str_label": 0, "max_retries_zero_or_one": 0,
+           "retry_middleware_installed_after_first_failures": int(any(m.get("warmup") for m in script["messages"]))}
     for m in script["messages"]:
         if m.get("kind", "valid") != "valid":
             continue
